@@ -356,7 +356,7 @@ pub fn run(tier: Tier) -> Outcome {
     let m = model(tier);
     // sanity: the error code constant used by the probe is the program's ProtocolPaused
     assert_eq!(ERR_PROTOCOL_PAUSED as u32, 6000 + marginfi::errors::MarginfiError::ProtocolPaused as u32);
-    let lim = Limits { max_depth: 100_000, max_wall_s: if tier == Tier::Quick { 50.0 } else { 3000.0 }, max_states: 60_000_000, ..Default::default() };
+    let lim = Limits { max_depth: 100_000, max_wall_s: if tier == Tier::Quick { 300.0 } else { 3000.0 }, max_states: 60_000_000, ..Default::default() };
     let rep = mc::explore(&m, &lim);
     let mut o = Outcome { level: "model_checking".into(), ..Default::default() };
     for c in &rep.counterexamples {
